@@ -21,7 +21,7 @@ var kinds = []kind{
 	{"map", "map[string]*int", false, []string{"m", "nil", "map[string]*int{}", "make(map[string]*int)", "gMap", "lib.Map(c)"}, "map[string]*int{}"},
 	{"any", "any", true, []string{"x", "nil", "any(p)", "any(s)", "any(e)", "any(n)", "lib.Iface(c)", "lib.TypedNil()", "any((*int)(nil))", "any(new(int))", "st.X", "genAny[error](e)", "genAny[any](x)", "genAny[*int](p)", "genAnyE[error](e)", "genAnyE[*lib.E](nil)", "genAnyE(&lib.E{})"}, "any(1)"},
 	{"err", "error", true, []string{"e", "nil", "error((*lib.E)(nil))", "&lib.E{}", "errors.New(\"x\")", "lib.Err(c)", "lib.TypedNilErr()", "lib.NeverNilErr()", "gErr", "genErr[error](e)", "genErr[*lib.E](nil)", "genErr(&lib.E{})", "genErrW[error](e)", "genErrW[*lib.E](nil)"}, "errors.New(\"nn\")"},
-	{"uptr", "unsafe.Pointer", false, []string{"unsafe.Pointer(p)", "unsafe.Pointer(u)", "unsafe.Add(unsafe.Pointer(p), n&1)", "nil", "unsafe.Pointer(uintptr(0))", "unsafe.Pointer(&loc)"}, "unsafe.Pointer(new(int))"},
+	{"uptr", "unsafe.Pointer", false, []string{"unsafe.Pointer(p)", "unsafe.Pointer(u)", "unsafe.Add(unsafe.Pointer(&arr[0]), n&1)", "nil", "unsafe.Pointer(uintptr(0))", "unsafe.Pointer(&loc)"}, "unsafe.Pointer(new(int))"},
 	{"fn", "func() int", false, []string{"f", "nil", "func() int { return n }", "lib.Fn(c)", "st.F", "p2.Get"}, "func() int { return 1 }"},
 	{"chan", "chan int", false, []string{"ch", "nil", "make(chan int)", "make(chan int, 1)", "lib.Ch(c)"}, "make(chan int)"},
 }
@@ -98,6 +98,20 @@ type fn struct {
 	k    kind
 	src  string
 	two  bool // returns (T, error)
+}
+
+var recArg = map[string]string{"ptr": "p", "slice": "s", "map": "m", "any": "x", "err": "e", "uptr": "unsafe.Pointer(p)", "fn": "f", "chan": "ch"}
+
+func init() {
+	for i := range kinds {
+		k := &kinds[i]
+		for _, f := range []string{"recB", "recS", "recD"} {
+			k.sources = append(k.sources, fmt.Sprintf("%s%s(n, %s)", f, k.name, recArg[k.name]))
+		}
+		if k.name == "slice" {
+			k.sources = append(k.sources, "recApp(n, s)")
+		}
+	}
 }
 
 func genFunc(rng *rand.Rand, idx int) fn {
@@ -221,6 +235,17 @@ func helpers() string {
 	for _, k := range kinds {
 		fmt.Fprintf(&b, "var g%s %s\n\nfunc id%s(v %s) %s { return v }\n\n", k.name, k.typ, k.name, k.typ, k.typ)
 	}
+	// mutual and direct recursion: a summary that is computed while a function of the cycle
+	// is still being analysed must not count that function as returning nothing
+	for _, k := range kinds {
+		fmt.Fprintf(&b, "func recA%s(n int, v %s) %s {\n\tif n <= 0 {\n\t\treturn nil\n\t}\n\treturn recB%s(n-1, v)\n}\n\n", k.name, k.typ, k.typ, k.name)
+		fmt.Fprintf(&b, "func recB%s(n int, v %s) %s {\n\tif n&1 == 0 {\n\t\treturn %s\n\t}\n\treturn recA%s(n-1, v)\n}\n\n", k.name, k.typ, k.typ, k.nonnil, k.name)
+		fmt.Fprintf(&b, "func recS%s(n int, v %s) %s {\n\tif n <= 0 {\n\t\treturn v\n\t}\n\treturn recS%s(n-1, v)\n}\n\n", k.name, k.typ, k.typ, k.name)
+		// the cycle entered from the other side: the function analysed first has only non-nil returns of its own
+		fmt.Fprintf(&b, "func recC%s(n int, v %s) %s {\n\tif n&1 == 0 {\n\t\treturn %s\n\t}\n\treturn recD%s(n-1, v)\n}\n\n", k.name, k.typ, k.typ, k.nonnil, k.name)
+		fmt.Fprintf(&b, "func recD%s(n int, v %s) %s {\n\tif n <= 0 {\n\t\treturn nil\n\t}\n\treturn recC%s(n-1, v)\n}\n\n", k.name, k.typ, k.typ, k.name)
+	}
+	b.WriteString("func recApp(n int, s []int) []int {\n\tif n <= 0 {\n\t\treturn s[:0:0]\n\t}\n\treturn append(recApp(n-1, s), s...)\n}\n\n")
 	b.WriteString("func idPtr(v *int) *int { return v }\n\n// dec counts n down and reports whether to go round again.\nfunc dec(n *int) bool { *n--; return *n > 0 }\n\n")
 	b.WriteString("// generic relays: T may be instantiated with an interface type, whose nil converts to a nil interface\nfunc genAny[T any](x T) any { return x }\n\nfunc genErr[T error](x T) error { return x }\n\n// the constraint differs from the result type, so the conversion is a MakeInterface of a type-parameter value\nfunc genAnyE[T error](x T) any { return x }\n\nfunc genErrW[T interface {\n\terror\n\tcomparable\n}](x T) error {\n\treturn x\n}\n")
 	return b.String()
